@@ -100,6 +100,15 @@ CHECKS = {
              "exact overlap endpoints, point accuracy on integer grids, and agreement of the non-robust strategy on representable inputs.",
         note=NOTE_COMMON + "Partial: the collinear case analysis and the rounding distance of the computed point are oracle-checked (exhaustively on the 3x3 grid), not proved.",
     ),
+    "C15": dict(
+        technique="Lean 4 theorems over linearly ordered fields (clamped-projection rule attains the minimum over the segment in 2D and 3D; Lagrange identity for the |s|L shortcut; direction symmetry) + bit-exact Float correspondence + exact rational minimum-distance oracle",
+        text="C15_point_segment_2d/3d: for every point and non-degenerate segment the code's three-way rule (start if r<=0, end if r>=1, foot otherwise) yields "
+             "the minimum of the squared distance over all t in [0,1]; C15_perpendicular_formula: the 2D shortcut |s|*sqrt(L) squared equals the squared "
+             "distance to the foot; C15_direction_symmetric. Segment-to-segment (2D: 0 iff crossing else least endpoint distance; 3D: interior critical "
+             "point or least endpoint distance), zero-length segments, NaN-freedom and argument symmetry are checked on every explored input against exact "
+             "rational arithmetic, with the Lean Float mirror reproducing Go bit for bit.",
+        note=NOTE_COMMON + "Partial: segment-segment minimality (convexity argument) is oracle-checked, not proved; float rounding is bounded by tolerance 1e-9*scale, not proved.",
+    ),
 }
 
 _PENDING = "check not built yet in this session (work in progress; see DESIGN.md §9 build order)"
